@@ -90,7 +90,7 @@ def find_fn(src, name, impl_hint=None):
 
 
 KEYWORDS = {"let", "if", "else", "match", "return", "for", "while", "loop", "in", "break", "continue", "mut",
-            "as", "ref", "fn", "move"}
+            "as", "ref", "fn", "move"}  # `fn` items inside a body are parsed by stmt()
 
 
 class Parser:
@@ -493,13 +493,34 @@ class Parser:
                 self.eat()
                 mut = True
             pat = self.pattern()
+            ty = None
             if self.peek() == ":":
                 self.eat(":")
-                self.skip_type()
+                ty = self.skip_type()
             self.eat("=")
             e = self.expr()
             self.eat(";")
-            return ("let", pat, mut, e), False
+            return ("let", pat, mut, e, ty), False
+        if tok == "fn":
+            # a nested function item: ("fnitem", name, [(param name, type text)], return type text or None, body block)
+            self.eat()
+            name = self.eat()
+            self.eat("(")
+            params = []
+            while self.peek() != ")":
+                if self.peek() == "mut":
+                    self.eat()
+                pn = self.eat()
+                self.eat(":")
+                params.append((pn, self.skip_type()))
+                if self.peek() == ",":
+                    self.eat(",")
+            self.eat(")")
+            ret = None
+            if self.peek() == "->":
+                self.eat()
+                ret = self.skip_type()
+            return ("fnitem", name, params, ret, self.block()), False
         if tok == "return":
             self.eat()
             e = None if self.peek() in (";", "}") else self.expr()
